@@ -26,6 +26,7 @@ type args struct {
 	n     int
 	extra string
 	only  int // system driver: run only this scenario index (-1 = all)
+	shardK, shardN int // system driver: run only the scenarios with index % shardN == shardK
 	w     *bufio.Writer
 	count int
 	nt    map[[20]byte]struct{} // distinct non-trivial records (by content hash)
@@ -84,7 +85,15 @@ func main() {
 	fs.IntVar(&a.n, "n", 0, "number of random cases (0 = tier default)")
 	fs.StringVar(&a.extra, "x", "", "driver-specific option")
 	fs.IntVar(&a.only, "only", -1, "system driver: run only the scenario with this index (replay)")
+	shard := fs.String("shard", "", "system driver: k/N = run only the scenarios whose index %% N == k")
 	fs.Parse(os.Args[2:])
+	a.shardN = 1
+	if *shard != "" {
+		fmt.Sscanf(*shard, "%d/%d", &a.shardK, &a.shardN)
+		if a.shardN < 1 {
+			a.shardN = 1
+		}
+	}
 	if a.out == "" {
 		fmt.Fprintln(os.Stderr, "-out required")
 		os.Exit(2)
